@@ -11,7 +11,7 @@ CFG = dict(
     level_note='Trusted: Coq kernel, tools/translate.py (cross-checked: every pair of kinds goes through the real comparator), harness printers, the cfg hook. '
                '"Never fails" is observed on the real call under catch_unwind; the theorem excludes its only cause (a comparator that is not a total preorder).',
     technique='Coq proof (key argument over translator-regenerated tables; sorted-permutation-slice refinement; proved validator) + per-run differential correspondence',
-    bin='c35', n_quick=400, n_thorough=6000,
+    bin='c35', n_quick=400, n_thorough=2000,
     corr_name='Model/WireSort.v + Gen/WireRank.v vs compare_wire_values / sort_rows / apply_pagination / Handler::query_program / query_program_with_session (fast and slow path) / execute_program',
     rule='corpus (NaN witnesses of the repaired defect, the int/float precision witness); all 1156 ordered pairs of 34 representative Option<WireValue> '
          '(every kind, None, NaN both signs, +-0.0, +-inf, 2^53, 2^53+1, i64 extremes) and 4n triples through the real comparator; n random row sets '
